@@ -12,6 +12,7 @@ CONSTANTS
   Live = FALSE
   Mode = "free"
   CancelInLoop = FALSE
+  DropCancels = FALSE
   Emit = TRUE
 INVARIANTS ContractHolds EmitScn
 CHECK_DEADLOCK FALSE
